@@ -164,17 +164,11 @@ def noDup : List Nat → Bool
 
 /-! ## functions -/
 
-def varOK (v : Var) : Bool := nameOK v.name && (!v.ty.isBlk || v.size < 2 ^ 32)   -- finding #32
+def varOK (v : Var) : Bool := nameOK v.name && (!v.ty.isBlk || v.size < 2 ^ 63)   -- a negative size is rejected
 
 def distinct : List Str → Bool
   | [] => true
   | x :: xs => !xs.contains x && distinct xs
-
-/-- a label must be followed by an instruction: a function body cannot end in a label (new finding) -/
-def noTrailingLabel (body : List FItem) : Bool :=
-  match body.getLast? with
-  | some (.label _) => false
-  | _ => true
 
 def funcOK (tab : List TabEnt) (f : Func) : Bool :=
   nameOK f.name
@@ -188,14 +182,13 @@ def funcOK (tab : List TabEnt) (f : Func) : Bool :=
   && distinct (f.globals.map (·.2.2))
   && f.body.all (fitemOK f.regNames tab)
   && (f.body.any isRetLike || lastIsJmp f.body)
-  && noTrailingLabel f.body
 
 /-! ## items and modules: conditions that depend on what was scanned before -/
 
 structure WSt where
   /-- `module_item_tab` of the module so far -/
   tab : List TabEnt := []
-  /-- the scanner's stale `insn_code` -/
+  /-- code of the last instruction statement (no longer read by anything: fix fae404b2) -/
   lastInsn : Nat := insnTable.length
   deriving Repr
 
@@ -204,11 +197,8 @@ def lastInsnOf (body : List FItem) (dflt : Nat) : Nat :=
     | .insn c _ => c
     | .label _ => acc) dflt
 
-/-- the bare name of a `ref`/`expr` line is not taken for a label (stale `insn_code`, new finding) -/
-def notStaleLabel (lastInsn : Nat) : Bool := !labelPos lastInsn 0
-
 def dataOK (t : Ty) (els : List Nat) : Bool :=
-  !t.isBlk && (t ≠ .p || els.isEmpty)                     -- finding #34
+  !t.isBlk
   && (match t with
       | .f => els.all (fun v => floatRT fmtF (v % 2 ^ 32))
       | .d => els.all (fun v => floatRT fmtD (v % 2 ^ 64))
@@ -245,10 +235,10 @@ def itemOK (w : WSt) (prev : List Item) (it : Item) : Bool :=
     | .export _ | .import _ | .forward _ => true
     | .bss _ len => len.toNat < 2 ^ 63
     | .data _ t els => dataOK t els
-    | .ref _ r _ => nameOK r && (tabFind w.tab r).isSome && notStaleLabel w.lastInsn
+    | .ref _ r _ => nameOK r && (tabFind w.tab r).isSome
     | .lref _ l1 l2 _ => l1 ≥ 1 && (match l2 with | some l => l ≥ 1 | none => true)
     | .expr _ fn =>
-      nameOK fn && notStaleLabel w.lastInsn &&
+      nameOK fn &&
       (match tabFind w.tab fn with
        | some e => e.kind = .func
        | none => false) &&
@@ -322,7 +312,7 @@ def funcBad (tab : List TabEnt) (f : Func) : Option String :=
   if !nameOK f.name then some "item-name"
   else if f.res.any Ty.isBlk then some "blk-result"
   else if !f.args.all (fun v => nameOK v.name) then some "var-name"
-  else if !f.args.all varOK then some "blk-size-ge-2^32"
+  else if !f.args.all varOK then some "blk-size-ge-2^63"
   else if f.vararg && f.args.isEmpty then some "vararg-no-args"
   else if !f.locals.all (fun v => okVarType v.1 && nameOK v.2) then some "var-name"
   else if !f.globals.all (fun v => okVarType v.1 && nameOK v.2.1 && nameOK v.2.2) then some "var-name"
@@ -333,7 +323,6 @@ def funcBad (tab : List TabEnt) (f : Func) : Option String :=
     | some b => some b
     | none =>
       if !(f.body.any isRetLike || lastIsJmp f.body) then some "func-not-finished"
-      else if !noTrailingLabel f.body then some "label-before-endfunc"
       else none
 
 def itemBad (w : WSt) (prev : List Item) (it : Item) : Option String :=
@@ -346,22 +335,19 @@ def itemBad (w : WSt) (prev : List Item) (it : Item) : Option String :=
       | .bss _ len => if len.toNat < 2 ^ 63 then none else some "bss-ge-2^63"
       | .data _ t els =>
         if t.isBlk then some "data-type-blk"
-        else if t = .p && !els.isEmpty then some "data-type-p"
         else if dataOK t els then none else some "float-literal"
       | .ref _ r _ =>
         if !nameOK r then some "ref-name"
         else if !(tabFind w.tab r).isSome then some "ref-undeclared"
-        else if !notStaleLabel w.lastInsn then some "stale-insn-code"
         else none
       | .lref _ l1 l2 _ => if l1 ≥ 1 && (match l2 with | some l => l ≥ 1 | none => true) then none else some "label-zero"
       | .expr _ fn =>
         if !nameOK fn then some "ref-name"
-        else if !notStaleLabel w.lastInsn then some "stale-insn-code"
         else if itemOK w prev it then none else some "expr-func"
       | .proto _ res args _ =>
         if res.any Ty.isBlk then some "blk-result"
         else if !args.all (fun v => nameOK v.name) then some "var-name"
-        else if !args.all varOK then some "blk-size-ge-2^32" else none
+        else if !args.all varOK then some "blk-size-ge-2^63" else none
       | .func f => funcBad tab' f
 
 def itemsBad : WSt → List Item → List Item → Option String
